@@ -9,7 +9,7 @@ import itertools
 
 import networkx as nx
 
-from oracles.percolation import expectation
+from oracles.percolation import edge_monotonicity_pairs, expectation, expectation_multi
 from symx.core import all_, close, eq
 
 PROPERTY = "C17"
@@ -21,15 +21,19 @@ BOUNDS = {
     "quick": "pool of 7 cover-labelled networks (two triangles through one vertex built from a sorted edge list so that its adjacency alternates between the motifs; two triangles sharing a vertex; triangle+pendant edge+diamond; ring of three triangles; K4 with a tail; "
              "4-cycle+edge+triangle; chorded 5-cycle with two tails); step identity for every (vertex, motif) pair with all messages symbolic; whole run with symbolic phi: 0, 1, 2 and 25 (the default) iterations "
              "on the tree-like networks, 0, 1, 2 on the ring; query histories phi_a, phi_b, phi_a; range and per-message monotonicity of every step; "
-             "phi-monotonicity of the step for 2- and 3-vertex motifs",
-    "thorough": "ring with 3 iterations; one more network (K5 hub); phi-monotonicity attempted for 4-vertex motifs (reported undecided on timeout)",
+             "phi-monotonicity of the step: direct query for 2- and 3-vertex motifs; for motifs of >= 4 vertices and <= 6 edges (K4, 4-cycle, diamond, chorded 5-cycle) "
+             "through the per-edge decomposition (diagonal identity, affine in every edge probability, corner inequalities for every edge and every 0/1 setting of the others)",
+    "thorough": "ring with 3 iterations; one more network (K5 hub, 10 edges, per-edge decomposition too); the direct phi-monotonicity query also attempted for >= 4-vertex motifs (reported undecided on timeout)",
 }
 OUTSIDE = "convergence of the iteration to the fixed point and 'away from slow-convergence points' (analysis, not encodable: the claim is reduced to the step " \
-          "identity + the sweep structure); phi-monotonicity for motifs of >= 4 vertices rests on the proved identity with the bond-percolation expectation " \
-          "plus the standard coupling lemma (not counted as discharged); floating-point rounding; motifs sharing more than one vertex"
-ASSUMPTIONS = ["floats are exact rationals", "coupling lemma: the bond-percolation expectation of a product of [0,1]-valued u's over the root's component is non-increasing in phi",
+          "identity + the sweep structure); phi-monotonicity for motifs of >= 4 vertices is decided up to the corner lemma below " \
+          "(the direct nonlinear query stays undecided in z3 and cvc5); floating-point rounding; motifs sharing more than one vertex"
+ASSUMPTIONS = ["floats are exact rationals",
+               "corner lemma (>= 4-vertex motifs only): a polynomial that is affine in each of p_1..p_m attains its maximum over [0,1]^m at a corner; hence "
+               "corner inequalities f(e occupied) <= f(e unoccupied) give df/dp_e <= 0 on the cube and f(phi,..,phi) is non-increasing in phi",
                "the step obligations use the fields _phi/_H_tau and the method calculate_H_tau named in the property's anchors (skipped with a note if absent)"]
-EXPECTED_LABELS = ["step-identity", "sweep-covers-every-pair", "whole-run", "history", "zero-at-phi-0", "step-range", "step-monotone-in-message", "step-monotone-in-phi"]
+EXPECTED_LABELS = ["step-identity", "sweep-covers-every-pair", "whole-run", "history", "zero-at-phi-0", "step-range", "step-monotone-in-message", "step-monotone-in-phi",
+                   "phi-monotone/diagonal", "phi-monotone/multilinear", "phi-monotone/edgewise"]
 VALIDATE_EVERY = 1
 TIME_LIMIT = {"quick": 900, "thorough": 3600}
 
@@ -132,6 +136,51 @@ def reference_run(net, G, phi, T):
     return 1 - tot / G.order()
 
 
+def phi_monotone_by_edges(ctx, net, H0, phi, focal, mid, desc):
+    """phi-monotonicity of the (already identified) expectation for motifs of >= 4 vertices, where the direct nonlinear query is
+    undecided: split the single phi into one probability per edge.  Solver-decided: (a) the per-edge form restricted to the diagonal
+    p_e = phi is the expectation the library's value was proved equal to; (b) it is multilinear (affine in every p_e); (c) at every
+    0/1 setting of the other edges, occupying one more edge cannot increase the value (u in [0,1]).  Left to the stated lemma: an
+    affine-in-each-variable function attains its extrema over the cube at its corners, hence d/dp_e <= 0 everywhere and the
+    diagonal restriction is non-increasing."""
+    from symx.core import implies  # noqa
+
+    m = NETS[net][mid]
+    es = m["es"]
+    u = {}
+    for j in m["vs"]:
+        if j != focal:
+            pr = 1
+            for nu in motifs_of(net, j):
+                if nu != mid:
+                    pr = pr * H0[(j, nu)]
+            u[j] = pr
+    ref = expectation(es, focal, phi, u)
+    diag = expectation_multi(es, focal, {i: phi for i in range(len(es))}, u)
+    ctx.require(eq(diag, ref), "phi-monotone/diagonal", f"{desc}: per-edge expectation on the diagonal differs from the expectation",
+                twin=eq(diag, ref + phi), logic="QF_NRA", timeout=60000)
+    ps = {i: ctx.real(ctx.uniq(f"p{i}"), 0, 1) for i in range(len(es))}
+    full = expectation_multi(es, focal, ps, u)
+    for e in range(len(es)):
+        hi = expectation_multi(es, focal, ps, u, fixed={e: 1})
+        lo = expectation_multi(es, focal, ps, u, fixed={e: 0})
+        ctx.require(eq(full, ps[e] * hi + (1 - ps[e]) * lo), "phi-monotone/multilinear", f"{desc}: not affine in the probability of edge {es[e]}",
+                    twin=eq(full, ps[e] * hi + (1 - ps[e]) * lo + ps[e]) if e == 0 else None, logic="QF_NRA", timeout=60000)
+    # free symbols for the u's: the corner inequalities are needed for every u in [0,1]
+    uu = {j: ctx.real(ctx.uniq(f"uu{j}"), 0, 1) for j in u}
+    for c0, c1 in edge_monotonicity_pairs(es, focal):
+        a = 1
+        for v in sorted(c0):
+            if v != focal:
+                a = a * uu[v]
+        b = 1
+        for v in sorted(c1):
+            if v != focal:
+                b = b * uu[v]
+        ctx.require(b <= a, "phi-monotone/edgewise", f"{desc}: enlarging the component {sorted(c0)} -> {sorted(c1)} increases the product",
+                    twin=(b < a), logic="QF_NRA", timeout=20000)
+
+
 def path(ctx, cfg):
     from gcmpy.message_passing.message_passing import MessagePassing
 
@@ -171,6 +220,8 @@ def path(ctx, cfg):
                 from symx.core import implies
                 ctx.require(implies(x2 >= H0[k], ref2 >= ref), "step-monotone-in-message", f"{desc}: not monotone in message {k}",
                             twin=implies(x2 >= H0[k], ref2 > ref), logic="QF_NRA", timeout=20000)
+            if len(m["vs"]) >= 4 and len(m["es"]) <= (6 if cfg["tier"] == "quick" else 10):
+                phi_monotone_by_edges(ctx, net, H0, phi, focal, mid, desc)
             if len(m["vs"]) <= 3 or cfg["tier"] == "thorough":
                 phi2 = ctx.real(ctx.uniq("phi2"), 0, 1)
                 ref2 = oracle_step(net, H0, phi2, focal, mid)
